@@ -12,6 +12,7 @@
 -/
 import RdestModel.Swarm.Manager
 import RdestModel.Swarm.Handler
+import RdestModel.Swarm.Trace
 namespace Rdest.Swarm.Loop
 open Rdest Rdest.Wire Rdest.Swarm
 
@@ -63,21 +64,62 @@ def repIn : HIn → Rep
   | .bcHave _ rep => rep
   | _ => .none
 
-/-- One joint step of connection `a`: the task handles `inp` (whose reply part is the manager's), the manager handles
-    the task's command, and a task that ended is forgotten. -/
+/-- One joint step of connection `a` with the task's outputs `outs`: the task handles `inp` (whose reply part is the
+    manager's), the manager handles the task's command, and a task that ended is forgotten. -/
+def LStepO (T : Torrent) (sha1 : Bytes → Bytes) (disk : Bytes → Option Bytes) (a : Nat)
+    (m : MState) (t : HState) (inp : HIn) (m' : MState) (t' : HState) (outs : List HOut) : Prop :=
+  ∃ e m1, hstep sha1 disk t inp = some (t', outs, e) ∧ Handled T a m (cmdsOf outs) (repIn inp) m1 ∧ m' = afterEnd a e m1
+
 def LStep (T : Torrent) (sha1 : Bytes → Bytes) (disk : Bytes → Option Bytes) (a : Nat)
     (m : MState) (t : HState) (inp : HIn) (m' : MState) (t' : HState) : Prop :=
-  ∃ outs e m1, hstep sha1 disk t inp = some (t', outs, e) ∧
-    Handled T a m (cmdsOf outs) (repIn inp) m1 ∧
-    m' = afterEnd a e m1
+  ∃ outs, LStepO T sha1 disk a m t inp m' t' outs
 
 /-- The link between the two models for connection `a`: while the task lives, the manager has a record for it whose ghost
-    `rx` is the index of the task's `piece_rx` and whose `choked` flag is the task's. -/
+    `rx` is the index of the task's `piece_rx` and whose `choked` flag is the task's; and the piece being fetched is the
+    one recorded as assigned (`piece_index`). -/
 def Linked (a : Nat) (m : MState) (t : HState) : Prop :=
-  t.alive = true → ∃ p, findPeer m a = some p ∧ t.pieceRx.map (·.index) = p.rx ∧ t.choked = p.choked
+  t.alive = true → ∃ p, findPeer m a = some p ∧ t.pieceRx.map (·.index) = p.rx ∧ t.choked = p.choked ∧
+    ∀ y, p.rx = some y → p.pieceIndex = some y
 
 /-- What the task was told about the piece it is fetching is what the torrent lists for that index. -/
 def RxListed (T : Torrent) (t : HState) : Prop :=
   ∀ rx, t.pieceRx = some rx → rx.hash = T.hashes.getD rx.index [] ∧ rx.buff.length = T.plen rx.index
+
+/-! ### Any number of connections -/
+
+/-- The whole client: the manager, one task per address (an address without a connection is a dead task), and the ghost
+    list of piece indices for which some task has written a piece file. -/
+structure Sys where
+  m : MState
+  tasks : Nat → HState
+  stored : List Nat
+
+def updateTask (f : Nat → HState) (a : Nat) (t : HState) : Nat → HState := fun b => if b = a then t else f b
+
+def isSave : HOut → Bool
+  | .save _ _ => true
+  | _ => false
+
+/-- What a step of a task stored: the piece it was fetching, if a piece file was written. -/
+def savedIdx (t : HState) (outs : List HOut) : List Nat :=
+  if outs.any isSave then (t.pieceRx.map (·.index)).toList else []
+
+/-- A new connection task: alive, nothing being fetched, choked by the peer (`PeerHandler::new`). -/
+def FreshTask (t : HState) : Prop := t.alive = true ∧ t.pieceRx = none ∧ t.choked = true
+
+/-- One step of the whole client: a connection is added (incoming, or to a listed peer), or one connection takes a
+    joint step — any connection, any input: the interleaving is arbitrary. -/
+inductive SysStep (T : Torrent) (sha1 : Bytes → Bytes) : Sys → Sys → Prop where
+  | connect (S : Sys) (a : Nat) (t : HState) (m' : MState) :
+      findPeer S.m a = none → FreshTask t → mstep S.m (.add a S.m.statuses.length) = .ok m' .none →
+      SysStep T sha1 S { S with m := m', tasks := updateTask S.tasks a t }
+  | own (S : Sys) (a : Nat) (d : Option (Bytes × Bytes)) (inp : HIn) (m' : MState) (t' : HState) (outs : List HOut) :
+      LStepO T sha1 (diskOf d) a S.m (S.tasks a) inp m' t' outs →
+      SysStep T sha1 S { m := m', tasks := updateTask S.tasks a t', stored := savedIdx (S.tasks a) outs ++ S.stored }
+
+inductive SysReach (T : Torrent) (sha1 : Bytes → Bytes) : Sys → Prop where
+  | init (n : Nat) (dead : Nat → HState) : (∀ a, (dead a).alive = false) →
+      SysReach T sha1 { m := { statuses := List.replicate n .missing, peers := [] }, tasks := dead, stored := [] }
+  | step (S S' : Sys) : SysReach T sha1 S → SysStep T sha1 S S' → SysReach T sha1 S'
 
 end Rdest.Swarm.Loop
